@@ -17,6 +17,7 @@ func (o *lockOp) subs() []int {
 }
 func (o *lockOp) fire(int)     { o.m.held = true }
 func (o *lockOp) desc() string { return "Lock " + o.m.id() }
+func (o *lockOp) objs(int) []string { return []string{o.m.id()} }
 
 func (m *Mutex) id() string {
 	if m.name == "" {
@@ -34,6 +35,7 @@ func (m *Mutex) Unlock() {
 		panic("sync: unlock of unlocked mutex")
 	}
 	m.held = false
+	touch(m.id())
 }
 func (m *Mutex) TryLock() bool {
 	Yield("TryLock")
@@ -77,6 +79,7 @@ func (o *rwOp) fire(int) {
 		o.m.readers++
 	}
 }
+func (o *rwOp) objs(int) []string { return []string{o.m.id()} }
 func (o *rwOp) desc() string {
 	if o.write {
 		return "Lock " + o.m.id()
@@ -91,12 +94,14 @@ func (m *RWMutex) Unlock() {
 		return
 	}
 	m.writer = false
+	touch(m.id())
 }
 func (m *RWMutex) RUnlock() {
 	if inKill() {
 		return
 	}
 	m.readers--
+	touch(m.id())
 }
 
 // WaitGroup
@@ -115,18 +120,21 @@ func (o *wgOp) subs() []int {
 	return []int{0}
 }
 func (o *wgOp) fire(int) {}
-func (o *wgOp) desc() string {
-	if o.w.name == "" {
-		o.w.name = objName("wg")
+func (w *WaitGroup) id() string {
+	if w.name == "" {
+		w.name = objName("wg")
 	}
-	return "Wait " + o.w.name
+	return w.name
 }
+func (o *wgOp) objs(int) []string { return []string{o.w.id()} }
+func (o *wgOp) desc() string      { return "Wait " + o.w.id() }
 
 func (w *WaitGroup) Add(d int) {
 	if inKill() {
 		return
 	}
 	w.n += d
+	touch(w.id())
 	if w.n < 0 {
 		panic("sync: negative WaitGroup counter")
 	}
@@ -162,7 +170,7 @@ func (m *Map) pt(what string, key any) {
 	if m.name == "" {
 		m.name = objName("map")
 	}
-	Yield(what + " " + m.name)
+	yieldObj(what, m.name)
 	if m.m == nil {
 		m.m = map[any]any{}
 	}
@@ -244,7 +252,7 @@ func (i *Int64) pt(what string) {
 	if i.name == "" {
 		i.name = objName("a64_")
 	}
-	Yield(what + " " + i.name)
+	yieldObj(what, i.name)
 }
 func (i *Int64) Load() int64 { i.pt("Load"); return i.v }
 func (i *Int64) Store(v int64) {
